@@ -637,6 +637,22 @@ theorem table_addRule (cfg : Cfg) (t : Table) (r : Rule) (p : Packet) (incoming 
           cases a <;> cases b <;> cases c <;> cases d <;> cases e <;> cases f <;> cases x <;> rfl
 
 
+theorem table_refused_iff (cfg : Cfg) (t : Table) (r : Rule) :
+    (∃ e, t.addRule cfg r = .error e) ↔ ruleValid r = false := by
+  unfold Table.addRule ruleValid
+  simp only [Gen.firewall_ProtoTCP, Gen.firewall_ProtoUDP, Gen.firewall_ProtoAny, isICMP_eq, beq_iff_eq]
+  by_cases h6 : r.proto = 6
+  · by_cases hp : r.startPort > r.endPort <;> simp [h6, hp, Spec.Fw.isICMP] <;> omega
+  · by_cases h17 : r.proto = 17
+    · by_cases hp : r.startPort > r.endPort <;> simp [h17, hp, Spec.Fw.isICMP] <;> omega
+    · by_cases h1 : r.proto = 1
+      · simp [h1, Spec.Fw.isICMP]
+      · by_cases h58 : r.proto = 58
+        · simp [h58, Spec.Fw.isICMP]
+        · by_cases h0 : r.proto = 0
+          · by_cases hp : r.startPort > r.endPort <;> simp [h0, hp, Spec.Fw.isICMP] <;> omega
+          · simp [h6, h17, h1, h58, h0, Spec.Fw.isICMP]
+
 /-! ### Firewall.AddRule over a rule list -/
 
 theorem ruleMatches_eq (cfg : Cfg) (r : Rule) (p : Packet) (incoming : Bool) (pr : Peer) :
